@@ -1,0 +1,100 @@
+//! Observation hooks for external runtime monitors (cargo feature `verif`).
+//!
+//! Nothing in here influences decoding or encoding: events are handed to a
+//! thread-local observer if one is installed and dropped otherwise.
+#![allow(missing_docs)]
+
+use std::cell::RefCell;
+
+/// Kind of a decoded symbol.
+pub const SYM_LIT: u8 = 0;
+pub const SYM_MATCH: u8 = 1;
+pub const SYM_SHORTREP: u8 = 2;
+pub const SYM_REP: u8 = 3;
+pub const SYM_EOS: u8 = 4;
+
+/// Loop sites reported through [`Event::Tick`].
+pub const TICK_LZMA_LOOP: u8 = 0;
+pub const TICK_LZMA2_CHUNK: u8 = 1;
+pub const TICK_XZ_BLOCK: u8 = 2;
+pub const TICK_XZ_INDEX_RECORD: u8 = 3;
+pub const TICK_ZERO_PADDING: u8 = 4;
+pub const TICK_XZ_PADDING: u8 = 5;
+
+#[derive(Debug, Clone, PartialEq, Eq)]
+pub enum Event {
+    /// A symbol was decoded with `update == true`, before it is applied.
+    Sym {
+        kind: u8,
+        rep_idx: u8,
+        len: u32,
+        dist: u64,
+        state_before: u8,
+        out_len: u64,
+    },
+    /// `LzCircularBuffer::append_lz` entry.
+    LzCopy {
+        len: usize,
+        dist: usize,
+        cursor: usize,
+        dict_size: usize,
+        total: usize,
+    },
+    /// The circular window grew to `buf_len` bytes.
+    WinGrow { buf_len: usize, memlimit: usize },
+    /// The circular window handed `n` bytes to the sink.
+    WinFlush { n: usize },
+    /// The accumulating window was reset after handing `flushed` bytes over.
+    AccumReset { flushed: usize },
+    /// `LzAccumBuffer::append_lz` entry.
+    AccumCopy {
+        len: usize,
+        dist: usize,
+        buf_len: usize,
+    },
+    /// An LZMA2 chunk header was parsed.
+    Chunk {
+        control: u8,
+        unpacked: u64,
+        packed: u64,
+    },
+    /// A loop made one iteration.
+    Tick(u8),
+    /// `RangeEncoder::write_low` entry.
+    RcShift { cachesz: u32, carry: bool },
+}
+
+type Observer = Box<dyn FnMut(&Event)>;
+
+thread_local! {
+    static OBSERVER: RefCell<Option<Observer>> = const { RefCell::new(None) };
+}
+
+/// Install an observer for the current thread; returns the previous one.
+pub fn set_observer(observer: Option<Observer>) -> Option<Observer> {
+    OBSERVER.with(|o| std::mem::replace(&mut *o.borrow_mut(), observer))
+}
+
+#[inline]
+pub(crate) fn emit(event: Event) {
+    OBSERVER.with(|o| {
+        if let Ok(mut guard) = o.try_borrow_mut() {
+            if let Some(f) = guard.as_mut() {
+                f(&event);
+            }
+        }
+    });
+}
+
+/// Snapshot of the internal state of a streaming decoder.
+#[derive(Debug, Clone, Copy, PartialEq, Eq)]
+pub struct StreamSnapshot {
+    /// 0 = header, 1 = data, 2 = no state (failed).
+    pub phase: u8,
+    /// Bytes staged in the header buffer.
+    pub tmp_len: usize,
+    /// Bytes held back in the partial input buffer.
+    pub partial_len: usize,
+    /// Bytes produced so far (window length counter).
+    pub produced: u64,
+}
